@@ -271,4 +271,17 @@ def r07_induction(ctx):
     smf.inductive_agreement(ctx, ai, 'R07.6', 'R07.7')
 
 
-RULES = [('R07-induction', r07_induction), ('R07-scenarios', r07_scenarios), ('R07.5', r07_5), ('R07.4', r07_4), ('R07-file', r07_file), ('R07.1-time', r07_1_time)]
+def r07_vlq(ctx):
+    """Delta times and lengths are written and read by the VLQ functions: their bodies (shared with C08 R08.1)."""
+    from . import c08
+    ctx.borrow(c08.r08_vlq, 'R07.8')
+
+
+def r07_codec(ctx):
+    """Text payloads are written and read by encode_string/decode_string: their bodies (shared with C17 R17.4) - a cache keyed
+    without the charset, an error handler or post-processing there breaks the round trip of text meta messages."""
+    from . import c17
+    ctx.borrow(c17.r17_4, 'R07.9')
+
+
+RULES = [('R07.8', r07_vlq), ('R07.9', r07_codec), ('R07-induction', r07_induction), ('R07-scenarios', r07_scenarios), ('R07.5', r07_5), ('R07.4', r07_4), ('R07-file', r07_file), ('R07.1-time', r07_1_time)]
